@@ -4,200 +4,36 @@
   groupByVersion, packsOf, createPackages, txnExecute, txnExit).
 -/
 import Flumine.Txn
+import Flumine.Lemmas.Packs
 import Flumine.Lemmas.OrderLemmas
 import Flumine.Props.C03
 namespace Flumine.C02
-open Flumine Flumine.World Flumine.OL
+open Flumine Flumine.World Flumine.OL Flumine.Packs
 
-/-! ### chunks: `utils.chunks(l, n)` -/
+/-! ### chunks: `utils.chunks(l, n)` (proofs in Lemmas/Packs.lean) -/
 
-theorem chunks_flatten {α} (l : List α) (n : Nat) : (chunks l n).flatten = l := by
-  fun_induction chunks l n with
-  | case1 h => simp
-  | case2 l h hl => simp
-  | case3 l h _ ih => rw [List.flatten_cons, ih, List.take_append_drop]
+theorem chunks_flatten {α} (l : List α) (n : Nat) : (chunks l n).flatten = l := Packs.chunks_flatten l n
 
-theorem chunks_bound {α} (l : List α) (n : Nat) (hn : 0 < n) : ∀ c ∈ chunks l n, c.length ≤ n ∧ c ≠ [] := by
-  fun_induction chunks l n with
-  | case1 h => simp
-  | case2 l h hl =>
-    rcases h with h | h
-    · omega
-    · exact absurd h hl
-  | case3 l h _ ih =>
-    intro c hc
-    rcases List.mem_cons.mp hc with e | e
-    · subst e
-      refine ⟨by simp only [List.length_take]; omega, ?_⟩
-      intro e
-      have hl : l ≠ [] := fun e' => h (Or.inr e')
-      have h0 : (l.take n).length = 0 := by rw [e]; rfl
-      simp only [List.length_take] at h0
-      have : 0 < l.length := List.length_pos_iff.mpr hl
-      omega
-    · exact ih c e
+theorem chunks_bound {α} (l : List α) (n : Nat) (hn : 0 < n) : ∀ c ∈ chunks l n, c.length ≤ n ∧ c ≠ [] := Packs.chunks_bound l n hn
 
 /-! ### grouping by market version -/
-
-def keys (g : List (Option Int × List Nat)) : List (Option Int) := g.map (·.1)
-
-/-- the orders filed under version v -/
-def getGroup (g : List (Option Int × List Nat)) (v : Option Int) : List Nat :=
-  ((g.find? fun x => x.1 = v).map (·.2)).getD []
-
-def gstep (acc : List (Option Int × List Nat)) (ov : Nat × Option Int) : List (Option Int × List Nat) :=
-  if acc.any (·.1 = ov.2) then acc.map fun g => if g.1 = ov.2 then (g.1, g.2 ++ [ov.1]) else g
-  else acc ++ [(ov.2, [ov.1])]
-
-theorem groupByVersion_eq (l : List (Nat × Option Int)) : groupByVersion l = l.foldl gstep [] := rfl
-
-theorem gstep_keys (acc : List (Option Int × List Nat)) (ov : Nat × Option Int) :
-    keys (gstep acc ov) = if ov.2 ∈ keys acc then keys acc else keys acc ++ [ov.2] := by
-  unfold gstep keys
-  by_cases h : acc.any (·.1 = ov.2) = true
-  · rw [if_pos h]
-    have hm : ov.2 ∈ acc.map (·.1) := by
-      simp only [List.any_eq_true, decide_eq_true_eq] at h
-      obtain ⟨x, hx, e⟩ := h
-      exact List.mem_map.mpr ⟨x, hx, e⟩
-    rw [if_pos hm, List.map_map]
-    apply List.map_congr_left
-    intro g _
-    simp only [Function.comp]
-    split <;> rfl
-  · rw [if_neg h]
-    have hm : ¬ ov.2 ∈ acc.map (·.1) := by
-      intro hm
-      obtain ⟨x, hx, e⟩ := List.mem_map.mp hm
-      apply h
-      simp only [List.any_eq_true, decide_eq_true_eq]
-      exact ⟨x, hx, e⟩
-    rw [if_neg hm]; simp
-
-theorem gstep_nodup (acc : List (Option Int × List Nat)) (ov : Nat × Option Int) (h : (keys acc).Nodup) :
-    (keys (gstep acc ov)).Nodup := by
-  rw [gstep_keys]
-  split
-  · exact h
-  · rename_i hm
-    exact List.nodup_append.mpr ⟨h, by simp, by
-      intro a ha b hb; simp only [List.mem_singleton] at hb; subst hb; intro e; subst e; exact hm ha⟩
-
-theorem find_map_key (acc : List (Option Int × List Nat)) (v w : Option Int) (o : Nat) :
-    ((acc.map fun g => if g.1 = w then (g.1, g.2 ++ [o]) else g).find? fun x => x.1 = v) =
-      (acc.find? fun x => x.1 = v).map fun g => if g.1 = w then (g.1, g.2 ++ [o]) else g := by
-  induction acc with
-  | nil => rfl
-  | cons x xs ih =>
-    simp only [List.map_cons, List.find?_cons]
-    have hk : (if x.1 = w then (x.1, x.2 ++ [o]) else x).1 = x.1 := by split <;> rfl
-    rw [hk]
-    by_cases hx : x.1 = v
-    · simp [hx]
-    · simp only [hx, decide_false]; exact ih
-
-theorem gstep_group (acc : List (Option Int × List Nat)) (ov : Nat × Option Int) (v : Option Int) :
-    getGroup (gstep acc ov) v = getGroup acc v ++ (if ov.2 = v then [ov.1] else []) := by
-  unfold gstep getGroup
-  by_cases h : acc.any (·.1 = ov.2) = true
-  · rw [if_pos h, find_map_key]
-    cases hf : acc.find? (fun x => x.1 = v) with
-    | none => simp only [Option.map_none, Option.getD_none, List.nil_append]
-              -- v is not a key, ov.2 is a key: they differ
-              have : ov.2 ≠ v := by
-                intro e
-                simp only [List.any_eq_true, decide_eq_true_eq] at h
-                obtain ⟨x, hx, ex⟩ := h
-                have := List.find?_eq_none.mp hf x hx
-                simp [ex, e] at this
-              simp [this]
-    | some g =>
-      have hg : g.1 = v := by simpa using List.find?_some hf
-      simp only [Option.map_some, Option.getD_some]
-      by_cases e : ov.2 = v
-      · rw [if_pos (by rw [hg, e]), if_pos e]
-      · rw [if_neg (by rw [hg]; exact fun e' => e e'.symm), if_neg e]; simp
-  · rw [if_neg h, List.find?_append]
-    cases hf : acc.find? (fun x => x.1 = v) with
-    | some g => simp only [Option.some_or, Option.map_some, Option.getD_some]
-                have hg : g.1 = v := by simpa using List.find?_some hf
-                have : ov.2 ≠ v := by
-                  intro e
-                  apply h
-                  simp only [List.any_eq_true, decide_eq_true_eq]
-                  exact ⟨g, List.mem_of_find?_eq_some hf, by rw [hg, e]⟩
-                simp [this]
-    | none =>
-      simp only [Option.none_or, Option.map_none, Option.getD_none, List.nil_append]
-      by_cases e : ov.2 = v
-      · simp [e]
-      · simp [e]
-
-theorem foldl_gstep (l : List (Nat × Option Int)) (acc : List (Option Int × List Nat)) (h : (keys acc).Nodup) :
-    (keys (l.foldl gstep acc)).Nodup ∧
-    ∀ v, getGroup (l.foldl gstep acc) v = getGroup acc v ++ (l.filter fun ov => ov.2 = v).map (·.1) := by
-  induction l generalizing acc with
-  | nil => exact ⟨h, fun v => by simp⟩
-  | cons ov l ih =>
-    obtain ⟨h1, h2⟩ := ih (gstep acc ov) (gstep_nodup acc ov h)
-    refine ⟨h1, fun v => ?_⟩
-    rw [List.foldl_cons, h2 v, gstep_group, List.filter_cons]
-    by_cases e : ov.2 = v
-    · simp [e]
-    · simp [e]
 
 /-- C02.4a one group per market version, holding exactly the requests of that version in request order -/
 theorem groupByVersion_spec (l : List (Nat × Option Int)) :
     (keys (groupByVersion l)).Nodup ∧
-    ∀ v, getGroup (groupByVersion l) v = (l.filter fun ov => ov.2 = v).map (·.1) := by
-  rw [groupByVersion_eq]
-  have := foldl_gstep l [] (by simp [keys])
-  exact ⟨this.1, fun v => by rw [this.2 v]; simp [getGroup]⟩
+    ∀ v, getGroup (groupByVersion l) v = (l.filter fun ov => ov.2 = v).map (·.1) := Packs.groupByVersion_spec l
 
 /-! ### packages -/
 
 theorem limits : packLimit .place = 200 ∧ packLimit .cancel = 60 ∧ packLimit .update = 60 ∧ packLimit .replace = 60 := by decide
 
-theorem packLimit_pos (k : PackKind) : 0 < packLimit k := by cases k <;> decide
+theorem packLimit_pos (k : PackKind) : 0 < packLimit k := Packs.packLimit_pos k
 
 /-- C02.4b every package holds at most the exchange's per-call limit, is not empty, and only orders
     that were requested with the package's market version -/
 theorem packs_sound (pend : List (Nat × Option Int)) (kind : PackKind) :
-    ∀ p ∈ packsOf pend kind, p.2.length ≤ packLimit kind ∧ p.2 ≠ [] ∧ ∀ o ∈ p.2, (o, p.1) ∈ pend := by
-  intro p hp
-  unfold packsOf at hp
-  obtain ⟨g, hg, hp⟩ := List.mem_flatMap.mp hp
-  obtain ⟨ch, hch, rfl⟩ := List.mem_map.mp hp
-  have hb := chunks_bound g.2 (packLimit kind) (packLimit_pos kind) ch hch
-  refine ⟨hb.1, hb.2, fun o ho => ?_⟩
-  -- o ∈ ch ⊆ g.2 = getGroup (groups) g.1 = filter
-  have hog : o ∈ g.2 := by
-    have : o ∈ (chunks g.2 (packLimit kind)).flatten := List.mem_flatten.mpr ⟨ch, hch, ho⟩
-    rwa [chunks_flatten] at this
-  obtain ⟨hnd, hspec⟩ := groupByVersion_spec pend
-  have hfind : (groupByVersion pend).find? (fun x => x.1 = g.1) = some g := by
-    -- keys are distinct, so the first group with key g.1 is g itself
-    have : ∀ (gs : List (Option Int × List Nat)), (keys gs).Nodup → g ∈ gs → gs.find? (fun x => x.1 = g.1) = some g := by
-      intro gs
-      induction gs with
-      | nil => intro _ h; cases h
-      | cons x xs ih =>
-        intro hn hm
-        simp only [keys, List.map_cons, List.nodup_cons] at hn
-        rcases List.mem_cons.mp hm with e | e
-        · subst e; simp
-        · have hx : x.1 ≠ g.1 := by
-            intro ex; exact hn.1 (by rw [ex]; exact List.mem_map.mpr ⟨g, e, rfl⟩)
-          rw [List.find?_cons]; simp only [hx, decide_false]
-          exact ih hn.2 e
-    exact this _ hnd hg
-  have : getGroup (groupByVersion pend) g.1 = g.2 := by unfold getGroup; rw [hfind]; rfl
-  rw [hspec g.1] at this
-  rw [← this] at hog
-  obtain ⟨ov, hov, rfl⟩ := List.mem_map.mp hog
-  have hf := List.mem_filter.mp hov
-  have : ov.2 = g.1 := by simpa using hf.2
-  rw [← this]; exact hf.1
+    ∀ p ∈ packsOf pend kind, p.2.length ≤ packLimit kind ∧ p.2 ≠ [] ∧ ∀ o ∈ p.2, (o, p.1) ∈ pend := Packs.packs_sound pend kind
+
 
 /-- C02.4c exactly once, in request order: for every market version, the packages of that version,
     read in the order they are sent, hold exactly the requests made with that version, in order -/
